@@ -551,6 +551,17 @@ class Worker:
                     if n_batches >= batch_size_log_cadence:
                         print_batching_info()
                         n_batches = 0
+        except BaseException:
+            # This worker is going down (e.g. `call` raised a non-`Exception`).
+            # The collector thread may be blocked on the full buffer or be waiting for
+            # input; make it quit, otherwise the `join` below never returns.
+            q_in.put(None)
+            while collector_thread.is_alive():
+                try:
+                    self._batch_buffer.get(timeout=0.01)
+                except Empty:
+                    pass
+            raise
         finally:
             if batch_size_log_cadence and n_batches:
                 # Finally, log this if `batch_size_log_cadence` is "truthy"
